@@ -104,3 +104,30 @@ Definition scen1_ok_qc := scen1_ok NumQc qc_eqb.
 Definition scen2_ok_qc := scen2_ok NumQc qc_eqb.
 Definition scen1_ok_xq := scen1_ok NumXQ xq_same.
 Definition scen2_ok_xq := scen2_ok NumXQ xq_same.
+
+(* build once, return the spline coefficients as well (hook verif_coefficients) *)
+Section RunSpline.
+  Context {T : Type} (N : Num T).
+  Variable same : T -> T -> bool.
+
+  Definition run1_coeffs (s : scen1 T) : bout * list (rout T) * (list (list T) * list (list T)) :=
+    let n := length (s_rows s) in
+    let ax := axis_or_default N (s_ax s) n in
+    match s_strat s with
+    | SSpline b =>
+        match (_ <- build1d_checks N 3 ax n ;; spline_build N b (s_ext s) ax (s_rows s) (s_trail s)) with
+        | Ok sp => (BBuilt, map (fun q => to_rout (spline_interp N sp ax (s_rows s) q)) (s_queries s),
+                    (sp_a sp, sp_b sp))
+        | e => (to_bout e, [], ([], []))
+        end
+    | SLinear => (run1 N s, ([], []))
+    end.
+
+  Definition spline_ok (c : scen1 T * (bout * list (rout T)) * (list (list T) * list (list T))) : bool :=
+    let '(s, expected, (ea, eb)) := c in
+    let '(res, (a, b)) := run1_coeffs s in
+    result_eqb same res expected &&
+    list_eqb (list_eqb same) a ea && list_eqb (list_eqb same) b eb.
+End RunSpline.
+
+Definition spline_ok_qc := spline_ok NumQc qc_eqb.
